@@ -13,22 +13,24 @@ COMMON_NOTE = ("Trusted: Lean 4.33 kernel; axioms propext/Classical.choice/Quot.
                "Lean model; the tie to /repo is the differential correspondence run on every invocation plus the Lean "
                "specification predicate evaluated on the implementation's own outputs.")
 
-CLAIMS = {
-    "C15": dict(
-        text=("Machine-checked proof (Lean 4) over ALL packets: byte layout theorem for SDP and SCP, decode∘encode = id for "
-              "every in-range field value and 0-3 prefix arguments, argument-count rule and byte conservation for every "
-              "byte string and n_args, field isolation. Tied to rig/machine_control/packets.py by exact byte/field "
-              "correspondence on thousands of generated packets and byte strings per run, with the Lean layout "
-              "specification evaluated on the implementation's bytes."),
-        design="3/C15",
-        note="struct.pack/unpack modelled (B/H/I range checks, little endian). Flag constants regenerated from source.",
-        technique="Lean 4 theorems over a hand-written model + differential correspondence + Lean spec as oracle"),
-}
+def load_claims():
+    import importlib, sys
+    sys.path.insert(0, HERE)
+    out = {}
+    for f in sorted(os.listdir(os.path.join(HERE, "harness"))):
+        mm = __import__("re").match(r"(c\d\d)\.py$", f)
+        if mm:
+            mod = importlib.import_module("harness." + mm.group(1))
+            if getattr(mod, "CLAIM", None):
+                out[mm.group(1).upper()] = mod.CLAIM
+    return out
+
 
 NOT_YET = {}
 
 
 def main():
+    CLAIMS = load_claims()
     props = [json.loads(l) for l in open(os.path.join(HERE, "properties.jsonl"))]
     checks, na = [], []
     for p in props:
